@@ -563,3 +563,280 @@ def bnd6(units, R, functions=None):
                  key='loop:' + ';'.join(sorted(set(steps)))[:80], line=head)
     if functions is None:
         R.floor('BND6', 'loops in the parse family', nloops, 7)
+
+
+# ---- TAB7 saturation template ---------------------------------------------------------------------------------------
+
+INT_MAX = 2147483647
+INT_MIN = -2147483648
+
+
+def tab7(units, R):
+    """Every conversion of a double to the int view is reached only when the value was compared against INT_MAX and
+    INT_MIN and both comparisons failed; the failing sides store the saturated constants."""
+    u = units['cJSON.c']
+    n = 0
+    for fn in u.function_list:
+        cfg = None
+        for a in assignments(fn):
+            l = strip_casts(a['l'])
+            if not (l.get('k') == 'mem' and l['f'] == 'valueint' and a['op'] == '='):
+                continue
+            r = a['r']
+            if const_val(r) is not None:
+                continue   # constant stores (true -> 1, the saturated values) are judged through the casts below
+            r0 = r
+            if not (r0.get('k') == 'cast' and u.ty(r0['from'])['c'] == 'float' and u.ty(r0['ty'])['c'] == 'int'):
+                if strip_casts(r).get('k') == 'mem' and strip_casts(r)['f'] == 'valueint':
+                    continue   # plain copy of another node's int view
+                n += 1
+                R.ob('TAB7', fn, a, 'int view %s follows the saturation template' % expr_str(a)[:50], False,
+                     'valueint assigned from %s without the INT_MAX/INT_MIN saturation chain' % expr_str(strip_casts(r))[:40],
+                     key='valueint:' + expr_str(strip_casts(r))[:40])
+                continue
+            n += 1
+            cfg = cfg or fn.cfg()
+            src = expr_str(strip_casts(r0['e']))
+            node = node_containing(cfg, a)
+            ups, lows = [], []
+            for b in cfg.nodes:
+                if b.kind != 'branch':
+                    continue
+                p = cmp_parts(b.expr)
+                if p is None or expr_str(p[0]) != src:
+                    continue
+                if p[1] in ('>=', '>') and p[2] == INT_MAX:
+                    ups.append(b)
+                if p[1] in ('<=', '<') and p[2] == INT_MIN:
+                    lows.append(b)
+
+            def guarded(bs):
+                return any(guarded_by(cfg, node.id, lambda nn, l, b=b: nn.id == b.id and l is not None and l[0] == 'F') for b in bs)
+
+            def saturates(bs, const):
+                for b in bs:
+                    ts = [y for (y, l) in cfg.succ[b.id] if l and l[0] == 'T']
+                    for t in ts:
+                        reg = cfg.reachable(t, stop={node.id}) | {t}
+                        for m in reg:
+                            mn = cfg.nodes[m]
+                            if mn.kind == 'stmt' and mn.expr.get('k') == 'bin' and mn.expr['op'] == '=' and \
+                                    is_mem(mn.expr['l'], 'valueint') and const_val(mn.expr['r']) == const:
+                                return True
+                return False
+            ok = guarded(ups) and guarded(lows) and saturates(ups, INT_MAX) and saturates(lows, INT_MIN)
+            why = 'cast reachable only when %s is below INT_MAX and above INT_MIN; the other arms store INT_MAX / INT_MIN' % src
+            if not ok:
+                miss = []
+                if not guarded(ups):
+                    miss.append('no dominating failed test against INT_MAX')
+                if not guarded(lows):
+                    miss.append('no dominating failed test against INT_MIN')
+                if ups and not saturates(ups, INT_MAX):
+                    miss.append('INT_MAX arm does not store INT_MAX')
+                if lows and not saturates(lows, INT_MIN):
+                    miss.append('INT_MIN arm does not store INT_MIN')
+                why = '; '.join(miss) + ' (conversion of an out-of-range double to int is undefined)'
+            R.ob('TAB7', fn, a, 'int view %s follows the saturation template' % expr_str(a)[:50], ok, why, key='valueint:(int)' + src)
+    R.floor('TAB7', 'double-to-int conversions into valueint', n, 3)
+
+
+# ---- TAB4 literal triples --------------------------------------------------------------------------------------------
+
+LITERALS = {'null': 4, 'false': 1, 'true': 2}   # literal -> kind bit
+
+
+def tab4(units, R):
+    u = units['cJSON.c']
+    fn = u.fn('parse_value')
+    cfg = fn.cfg()
+    found = {}
+    for b in cfg.nodes:
+        if b.kind != 'branch':
+            continue
+        p = cmp_parts(b.expr)
+        if p is None or p[1] != '==' or p[2] != 0 or p[0].get('k') != 'call' or callee_name(p[0]) not in ('strncmp', 'memcmp'):
+            continue
+        call = p[0]
+        lits = [strip_casts(a) for a in call['args'] if strip_casts(a).get('k') == 'str']
+        nn = const_val(call['args'][2])
+        if not lits or nn is None:
+            continue
+        text = bytes(lits[0]['bytes']).decode('latin1')
+        t = [y for (y, l) in cfg.succ[b.id] if l and l[0] == 'T']
+        reg = set()
+        for y in t:
+            reg |= cfg.reachable(y) | {y}
+        adv = None
+        kind = None
+        for m in sorted(reg):
+            mn = cfg.nodes[m]
+            if mn.kind == 'stmt' and mn.expr.get('k') == 'bin':
+                if mn.expr['op'] == '+=' and is_mem(mn.expr['l'], 'offset') and adv is None:
+                    adv = const_val(mn.expr['r'])
+                if mn.expr['op'] == '=' and is_mem(mn.expr['l'], 'type') and kind is None:
+                    kind = const_val(mn.expr['r'])
+        found[text] = (nn, adv, kind, b)
+    for text, bit in LITERALS.items():
+        if text not in found:
+            R.ob('TAB4', fn, None, 'literal %s is recognised' % text, False, 'no comparison with "%s"' % text, key='lit:' + text)
+            continue
+        nn, adv, kind, b = found[text]
+        ok = nn == len(text) and adv == len(text) and kind == bit
+        R.ob('TAB4', fn, b.expr, 'literal "%s": compared length %s, advance %s, kind %s' % (text, nn, adv, kind), ok,
+             'all equal to strlen = %d and kind bit %d' % (len(text), bit) if ok else
+             'expected compare length = advance = %d and kind %d' % (len(text), bit), key='lit:' + text)
+    extra = set(found) - set(LITERALS)
+    R.ob('TAB4', fn, None, 'no literal outside null/false/true is accepted', not extra, str(sorted(extra)), key='lit-extra')
+    # BOM
+    fb = u.fn('skip_utf8_bom')
+    cfgb = fb.cfg()
+    okb = False
+    for b in cfgb.nodes:
+        if b.kind != 'branch':
+            continue
+        p = cmp_parts(b.expr)
+        if p and p[1] == '==' and p[2] == 0 and p[0].get('k') == 'call' and callee_name(p[0]) in ('strncmp', 'memcmp'):
+            lits = [strip_casts(a) for a in p[0]['args'] if strip_casts(a).get('k') == 'str']
+            nn = const_val(p[0]['args'][2])
+            adv = None
+            for y in [y for (y, l) in cfgb.succ[b.id] if l and l[0] == 'T']:
+                for m in sorted(cfgb.reachable(y) | {y}):
+                    mn = cfgb.nodes[m]
+                    if mn.kind == 'stmt' and mn.expr.get('k') == 'bin' and mn.expr['op'] == '+=' and is_mem(mn.expr['l'], 'offset'):
+                        adv = const_val(mn.expr['r'])
+            okb = bool(lits) and lits[0]['bytes'] == [0xEF, 0xBB, 0xBF] and nn == 3 and adv == 3
+            R.ob('TAB4', fb, b.expr, 'BOM EF BB BF: compared length %s, advance %s' % (nn, adv), okb, '', key='bom')
+    R.floor('TAB4', 'parser literals', len(found), 3)
+
+
+# ---- TAB5a parser escape table -----------------------------------------------------------------------------------------
+
+RFC8259_ESCAPES = {ord('b'): 8, ord('f'): 12, ord('n'): 10, ord('r'): 13, ord('t'): 9,
+                   ord('"'): 'self', ord('\\'): 'self', ord('/'): 'self', ord('u'): 'utf16'}
+
+
+def _switch_arms(sw):
+    """[(labels, [statements])] of a switch body; labels: ints or 'default'."""
+    arms = []
+    cur = None
+    body = sw['body']['body'] if sw['body'].get('k') == 'compound' else [sw['body']]
+    for s in body:
+        labels = []
+        x = s
+        while x.get('k') in ('case', 'default'):
+            labels.append(const_val(x['v']) if x['k'] == 'case' else 'default')
+            x = x.get('sub', {'k': 'null'})
+        if labels:
+            cur = (labels, [x])
+            arms.append(cur)
+        elif cur is not None:
+            cur[1].append(s)
+    return arms
+
+
+def tab5a(units, R):
+    u = units['cJSON.c']
+    fn = u.fn('parse_string')
+    sws = [s for s in fn.nodes() if s.get('k') == 'switch']
+    if not sws:
+        raise AnalysisBroken('TAB5a: escape switch of parse_string not found (table re-expressed?)')
+    sw = sws[0]
+    cond = strip_casts(sw['c'])
+    table = {}
+    for (labels, stmts) in _switch_arms(sw):
+        action = None
+        for s in stmts:
+            for x in walk(s):
+                if x.get('k') == 'bin' and x['op'] == '=' and strip_casts(x['l']).get('k') == 'un':
+                    v = const_val(x['r'])
+                    if v is not None:
+                        action = v
+                    elif expr_str(strip_casts(x['r'])) == expr_str(cond):
+                        action = 'self'
+                elif x.get('k') == 'call' and callee_name(x) and 'utf16' in callee_name(x) and action is None:
+                    action = 'utf16'
+                elif x.get('k') == 'goto' and action is None:
+                    action = 'fail'
+        for lb in labels:
+            table[lb] = action
+    n = 0
+    for ch, want in RFC8259_ESCAPES.items():
+        n += 1
+        got = table.get(ch)
+        R.ob('TAB5a', fn, sw, 'escape \\%s decodes to %s' % (chr(ch), want if isinstance(want, str) else 'byte %d' % want),
+             got == want, 'table entry: %s' % got, key='esc:%s' % chr(ch))
+    extra = [k for k in table if k != 'default' and k not in RFC8259_ESCAPES]
+    R.ob('TAB5a', fn, sw, 'no escape letter outside RFC 8259 is accepted', not extra,
+         'extra: %s' % [chr(k) for k in extra], key='esc-extra')
+    R.ob('TAB5a', fn, sw, 'unknown escapes are rejected', table.get('default') == 'fail', 'default arm: %s' % table.get('default'),
+         key='esc-default')
+    # the UTF-16 arm rejects a zero result
+    cfg = fn.cfg()
+    zero_checked = False
+    for b in cfg.nodes:
+        if b.kind == 'branch':
+            p = cmp_parts(b.expr)
+            if p and p[2] == 0 and p[1] in ('==', '!=') and is_ref(p[0]):
+                d = strip_casts(p[0])['d']
+                if any(a['op'] == '=' and is_ref(a['l']) and strip_casts(a['l'])['d'] == d and strip_casts(a['r']).get('k') == 'call'
+                       and 'utf16' in (callee_name(strip_casts(a['r'])) or '') for a in assignments(fn)):
+                    zero_checked = True
+    R.ob('TAB5a', fn, sw, 'a failed UTF-16 conversion (result 0) is tested', zero_checked, '', key='esc-utf16-zero')
+    R.floor('TAB5a', 'escape letters', n, 9)
+
+
+# ---- TAB6 UTF-16 / UTF-8 constants ----------------------------------------------------------------------------------------
+
+def tab6(units, R):
+    u = units['cJSON.c']
+    fn = u.fn('utf16_literal_to_utf8')
+    bounds = {}
+    for x in fn.nodes():
+        if x.get('k') != 'bin' or x['op'] not in ('<', '<=', '>', '>='):
+            continue
+        p = cmp_parts(x)
+        if p is None or not is_ref(p[0]):
+            continue
+        name = strip_casts(p[0])['n']
+        op, c = p[1], p[2]
+        b = c if op in ('>=', '<') else c + 1     # x >= c / x < c  -> boundary c ;  x > c / x <= c -> boundary c+1
+        bounds.setdefault(name, []).append(b)
+    want = {
+        'first_code': sorted([0xD800, 0xDC00, 0xDC00, 0xE000]),
+        'second_code': sorted([0xDC00, 0xE000]),
+        'codepoint': sorted([0x80, 0x800, 0x10000, 0x110000]),
+    }
+    for name, w in want.items():
+        got = sorted(b for b in bounds.get(name, []) if b > 6)
+        R.ob('TAB6', fn, None, 'range boundaries of %s are %s' % (name, [hex(v) for v in w]), got == w,
+             'found %s' % [hex(v) for v in got], key='bounds:' + name)
+    consts = {}
+    for x in fn.nodes():
+        if x.get('k') == 'bin' and x['op'] in ('&', '|', '<<', '>>', '+', '>>=', '&=', '|='):
+            for side in (x['l'], x['r']):
+                v = const_val(side)
+                if v is not None and strip_casts(side).get('k') in ('int', 'cast'):
+                    consts.setdefault(x['op'].rstrip('='), []).append(v)
+    exp = {'+': [0x10000], '&': sorted([0x3FF, 0x3FF, 0xBF, 0xFF, 0x7F]), '<<': [10], '|': [0x80], '>>': [6]}
+    for op, w in exp.items():
+        got = sorted(v for v in consts.get(op, []) if v not in (2, 6) or op == '>>')
+        R.ob('TAB6', fn, None, 'constants of %s are %s' % (op, [hex(v) for v in w]), sorted(got) == sorted(w),
+             'found %s' % [hex(v) for v in sorted(got)], key='consts:' + op)
+    # length / first-byte-mark pairs
+    marks = {}
+    for s in fn.nodes():
+        if s.get('k') == 'compound':
+            ln = mk = None
+            for x in s['body']:
+                if x.get('k') == 'bin' and x['op'] == '=' and is_ref(x['l']):
+                    nm = strip_casts(x['l'])['n']
+                    if nm == 'utf8_length':
+                        ln = const_val(x['r'])
+                    if nm == 'first_byte_mark':
+                        mk = const_val(x['r'])
+            if ln is not None:
+                marks[ln] = mk
+    R.ob('TAB6', fn, None, 'UTF-8 length / lead-byte marks are 1:-, 2:0xC0, 3:0xE0, 4:0xF0', marks == {1: None, 2: 0xC0, 3: 0xE0, 4: 0xF0},
+         'found %s' % {k: (hex(v) if v is not None else None) for k, v in sorted(marks.items())}, key='marks')
+    R.floor('TAB6', 'constant groups', len(bounds) + len(consts), 6)
